@@ -23,7 +23,9 @@ ATOMS = ["a", " a", "a ", " a ", "\na", "a\nb", "k=v", " k = v ", "k=\nv", "2=v"
          # names Lua's tonumber() accepts but the argument rule keeps as strings
          "0=z", "-1=n", "1e1=e", "0x10=h", "1.0=f",
          # a positional value with a line made of blanks only; names with a quote / an ampersand / a run of blanks
-         " \na", "a\n \nb", "1001=big", "a  b=c", "a'b=c", "a&b=d"]
+         " \na", "a\n \nb", "1001=big", "a  b=c", "a'b=c", "a&b=d",
+         # square brackets that are not a link
+         "he [sic] said", "w=[1]"]
 SMALL = ["a", " b ", "k=v", "2=w", "\nc"]
 ECHO = r"""
 local e = {}
